@@ -97,6 +97,9 @@ Lexemes(fam) ==
                          \* literals and as class members: . + | ^ # & ~ space =
          <<P(cDOT), P(43), P(124), P(94), P(35), P(38), P(126), P(32), P(61), P(cA), P(cSEP), P(cSTAR),
            L(<<cLB, 38, 38, cRB>>, 0), L(<<cLB, 126, 94, cRB>>, 0), L(<<cLB, 124, cRB>>, 0), L(<<cLB, cBANG, 32, 35, cRB>>, 0),
+           \* members that spell a set operator of the regex crate when left unescaped: ~~  --  &&
+           L(<<cLB, cA, 126, 126, 43, cRB>>, 0), L(<<cLB, cBANG, cA, 126, 126, cRB>>, 0),
+           L(<<cLB, cA, cBS, cDASH, cBS, cDASH, 43, cRB>>, 0), L(<<cLB, cA, 38, 38, 43, cRB>>, 0),
            FlagI>>
     [] fam = "deep" ->
          <<P(cA), P(cSEP), Open, Comma, Close, ROpen, R12, R01>>
